@@ -133,3 +133,26 @@ CLAIMED['C15'] = dict(
     note="Completion at wait() and exactly-once execution of each scheduled chunk are C02/C01 (assumed). Iterators are rendered as positions. Back ends: intwp for the arithmetic, CBMC "
          "DFCC loop contracts for the serial loop. The zero-thread-pool division by zero this check found on the pinned tree was repaired (fix: commit in known_findings.txt).",
     technique="function + loop contracts over extracted slices; VC generation over Int / CBMC DFCC")
+
+CLAIMED['C48'] = dict(
+    category='proof',
+    text="The whole body of the main parallel_for overload is extracted (lambda runTail substituted at its call sites; scheduling paths are contract stubs) and verified by CBMC "
+         "against a ghost ledger: invocations made runnable and not yet waited for, plus the one on the caller, never exceed max(1, options.maxThreads) at any invocation or launch, "
+         "for every range, option combination, pool size and recursion flag; maxThreads <= 1 never launches anything. The thread counts the stubs rely on are proved separately: "
+         "adjustChunkSizing never exceeds the requested limit, parallel_for_staticImpl's numThreads/numToSchedule slice gives 1 <= numThreads <= maxThreads and scheduled + caller == "
+         "numThreads, numToLaunch <= maxThreads - wait, and for_each_n's numThreads <= maxThreads.",
+    note="Counts invocations that MAY overlap, not simultaneity on hardware. Stub contracts of the four scheduling paths are trusted descriptions of 'how many launched / waited or not', "
+         "backed by the numThreads/numToLaunch units. One known finding is reported on every run: static chunking + wait=false + granularity tail runs the tail on the caller while the "
+         "scheduled chunks are still running (maxThreads+1 overlap); the residual obligation with that call site excluded is discharged. The adjustChunkSizing defect this check found "
+         "(maxThreads=1 ran on two threads for small explicitly chunked ranges) was repaired (fix: 5e85acf).",
+    technique="CBMC DFCC contracts over the extracted control skeleton with a ghost concurrency ledger and contract stubs; intwp for the thread-count arithmetic")
+
+CLAIMED['C14'] = dict(
+    category='proof',
+    text="Same extracted parallel_for skeleton, ghost state-ownership ledger: a state object bound to a launched, not yet waited invocation is never handed to the caller's invocation; "
+         "the states container holds at least one element on every non-empty-range path (initStates loop contract: size >= numNeeded >= 1). For the static path the scheduler-index -> "
+         "chunk-index remap is proved injective, below numThreads and different from the caller's chunk, and the state iterator is advanced by exactly that index, so concurrently "
+         "running chunks use distinct state objects.",
+    note="Dynamic/adaptive paths bind worker i to states[i] inside the stubs (read off their generator lambdas, not proved). The same known finding as C48 is reported (the caller-run tail "
+         "uses *states.begin() while scheduled chunk 0 is using it); residual discharged.",
+    technique="CBMC DFCC contracts over the extracted control skeleton with a ghost ownership ledger; intwp for the index remap and initStates loop")
